@@ -210,6 +210,11 @@ def r22(ctx, rep, ti):
                 hit = _stream_hits(v, S, containers)
                 if hit:
                     bad = 'eager consumer `%s` applied to the streamed source %s' % (ev.info['how'], sorted(hit))
+            elif ev.kind == 'truthtest':
+                hit = _stream_hits(ev.info['arg'], S, containers)
+                if hit:
+                    bad = ('truth test of the table %s: a petl table has no __bool__, so this calls '
+                           'IterContainer.__len__, a full scan' % sorted(hit))
             elif ev.kind == 'for':
                 v = ev.info['iter']
                 hit = _stream_hits(v, S, containers)
